@@ -14,6 +14,14 @@ import (
 
 var props = map[string]func(*h.Ctx){}
 
+// repoDir: the source tree the harness was built against (/repo, or the scratch copy a seeded change is tried in).
+func repoDir() string {
+	if d := os.Getenv("VERIF_REPO"); d != "" {
+		return d
+	}
+	return "/repo"
+}
+
 func main() {
 	prop := flag.String("prop", "", "property id")
 	tier := flag.String("tier", "quick", "quick|thorough")
